@@ -268,6 +268,96 @@ def t_midset(E, LT, LV, overlap):
             'exactly bytes [start-1, start-1+min(n, len(v), len-start+1)) are replaced')
 
 
+# ---------------------------------------------------------------------------
+# statement level: DataSegment.mid_ / lset_ / rset_ on a real DataSegment
+
+from pcbasic.basic.memory import memory as memory_mod
+
+class _Prog(object):
+    _pyvc_trusted = True
+    protected = False
+    def size(self):
+        return 50
+
+
+def _segment(E):
+    ds = E.new(memory_mod.DataSegment, 65534, 3429, 128, 3, False)
+    ds.set_buffers(_Prog())
+    ds.values.set_handler(values.FloatErrorHandler(None))
+    return ds
+
+
+def _var_content(E, ds, name):
+    v = E.call(ds.view_or_create_variable, name, [])
+    if v.raised:
+        raise Unsupported('variable lookup raised %r' % (v.exc,))
+    return str_cells(E, v.value)
+
+
+def t_mid_statement(E, LT, LV, with_num):
+    ds = _segment(E)
+    vals = ds.values
+    if LT:
+        E.call(ds.set_variable, b'A$', [], new_string(E, vals, E.bytes('t', LT, kind='bytes')))
+    ct = _var_content(E, ds, b'A$')
+    cb0 = None
+    E.call(ds.set_variable, b'B$', [], new_string(E, vals, b'bystander'))
+    v = _str(E, vals, LV, 'v')
+    cv = _content(E, v)
+    sobj, start = _int(E, vals, 'start')
+    if with_num:
+        nobj, num = _int(E, vals, 'num')
+    else:
+        nobj, num = None, 255
+    r = E.call(ds.mid_, iter([(b'A$', []), sobj, nobj, v]))
+    bad = Or(num < 0, num > 255, And(num > 0, Or(start < 1, start > LT)))
+    if r.raised:
+        E.cover('rejected')
+        E.prove(r.is_error(BASICError, error.IFC), 'only Illegal function call')
+        E.prove(bad, 'only for a count outside 0..255 or a start outside 1..LEN')
+        E.prove(bool(same_bytes(_var_content(E, ds, b'A$'), ct)) if LT else len(_var_content(E, ds, b'A$')) == 0,
+                'the target is unchanged when the statement is rejected')
+        return
+    E.cover('performed')
+    E.prove(Not(bad), 'performed only for count 0..255 and (count = 0 or start in 1..LEN)')
+    out = _var_content(E, ds, b'A$')
+    E.prove(len(out) == LT, 'the target keeps its length')
+    if LT == 0 or len(out) != LT:
+        return
+    n = E.concretize(Min(Max(num, 0), LT))
+    if n == 0:
+        E.prove(same_bytes(out, ct), 'count 0 changes nothing')
+    else:
+        a = E.concretize(start)
+        k = max(0, min(n, LV, LT - a + 1))
+        want = ct[:a - 1] + cv[:k] + ct[a - 1 + k:]
+        E.prove(same_bytes(out, want), 'exactly bytes [start-1, start-1+min(n, len(v), len-start+1)) are replaced')
+    E.prove(same_bytes(_var_content(E, ds, b'B$'), list(b'bystander')), 'other string variables are untouched')
+
+
+def t_lset_statement(E, LT, LS, right):
+    ds = _segment(E)
+    vals = ds.values
+    if LT:
+        E.call(ds.set_variable, b'A$', [], new_string(E, vals, E.bytes('t', LT, kind='bytes')))
+    E.call(ds.set_variable, b'B$', [], new_string(E, vals, b'bystander'))
+    s = _str(E, vals, LS, 's')
+    cs = _content(E, s)
+    r = E.call(ds.rset_ if right else ds.lset_, iter([(b'A$', []), s]))
+    E.prove(not r.raised, 'never raises')
+    out = _var_content(E, ds, b'A$')
+    E.prove(len(out) == LT, 'the target keeps its length')
+    if LT and len(out) == LT:
+        if LS >= LT:
+            want = cs[:LT]
+        elif right:
+            want = [32] * (LT - LS) + cs
+        else:
+            want = cs + [32] * (LT - LS)
+        E.prove(same_bytes(out, want), 'RSET right-justifies' if right else 'LSET left-justifies, padded with spaces')
+    E.prove(same_bytes(_var_content(E, ds, b'B$'), list(b'bystander')), 'other string variables are untouched')
+
+
 _SMALL = (0, 1, 2, 4)
 
 TASKS = [
@@ -285,12 +375,18 @@ TASKS = [
     Task('LSET/RSET', t_lset, cases=[{'LT': t, 'LS': s, 'right': r} for t in (0, 1, 4, 9) for s in (0, 2, 4, 12) for r in (False, True)]),
     Task('MID$ statement', t_midset, cases=[{'LT': t, 'LV': v, 'overlap': False} for t in (1, 3, 6) for v in (0, 1, 2, 8)] +
                                             [{'LT': t, 'LV': t, 'overlap': True} for t in (1, 3, 6)]),
+    Task('MID$ statement (DataSegment.mid_)', t_mid_statement,
+         cases=[{'LT': t, 'LV': v, 'with_num': w} for t in (0, 1, 4) for v in (0, 2, 6) for w in (True, False)],
+         covers=('rejected', 'performed')),
+    Task('LSET/RSET statements (DataSegment.lset_/rset_)', t_lset_statement,
+         cases=[{'LT': t, 'LS': s, 'right': r} for t in (0, 1, 4) for s in (0, 2, 4, 7) for r in (False, True)]),
 ]
 
 ASSUMPTIONS = [
     'string lengths are case parameters (stated grids, including 0, 1, 254, 255); contents and numeric arguments are symbolic',
-    'string space behind the values uses a stand-in for DataSegment (fixed layout, never out of memory)',
+    'string space behind the values uses a stand-in for DataSegment (fixed layout, never out of memory); '
+    'the statement-level tasks use the real DataSegment (65534 bytes, program stand-in of fixed size)',
     'argument plumbing through the statement parser is abstracted to an iterator of already evaluated values',
 ]
-NOT_COVERED = ['DataSegment.mid_/lset_/rset_ statement wrappers (variable lookup, range checks on the statement level)',
+NOT_COVERED = ['array-element targets of the MID$/LSET/RSET statements (scalar targets are covered)',
                'lengths not in the grids (the code has no length-specific branches beyond those exercised)']
